@@ -56,7 +56,24 @@ IcdfClauses(r) ==
                 slack == (1000000000 \div r.n) + 1000          \* 1/n + reference quadrature
             IN DkwOk(Max2(d9 - slack, 0) \div 10000, r.n)>> >>
 
+(* evaluation history on ONE model object (construct, evaluate, modify in place, evaluate the same  *)
+(* points again): pdfrel = deviation of model.pdf (single points and arrays) from the factorised    *)
+(* product of the CURRENT objects; freshrel = deviation from a freshly constructed model with the   *)
+(* same current parameters; ints = marginal_pdf / cdf against the reference quadrature and against  *)
+(* the fresh model (which runs the same nquad: 1e-9 relative + 1 unit)                              *)
+HistIntOk(e) == WithinRel(e.val, e.ref, IF e.what = "marginal_pdf" THEN 100 ELSE 1000, 1000000)
+HistoryClauses(r) ==
+  IF r.exc # "" THEN << <<"UnexpectedException", FALSE>> >>
+  ELSE <<
+    <<"Factorises", AllWithin(r.pdfrel, PdfTol)>>,
+    <<"SameAsFreshModel", /\ AllWithin(r.freshrel, PdfTol)
+                          /\ \A k \in 1..Len(r.ints) : WithinRel(r.ints[k].val, r.ints[k].fresh, 1, 1000000000)>>,
+    <<"MarginalsMatch", \A k \in 1..Len(r.ints) : r.ints[k].what = "marginal_pdf" => HistIntOk(r.ints[k])>>,
+    <<"CdfMatches", \A k \in 1..Len(r.ints) : r.ints[k].what = "cdf" => HistIntOk(r.ints[k])>>
+  >>
+
 Clauses(r) == CASE r.kind = "pdf" -> PdfClauses(r)
+                [] r.kind = "history" -> HistoryClauses(r)
                 [] r.kind = "integral" -> IntegralClauses(r)
                 [] r.kind = "icdf" -> IcdfClauses(r)
 Verdict(r) == Failing(Clauses(r))
